@@ -189,6 +189,63 @@ def job_thole(seed):
     return obs
 
 
+def job_rotate(seed):
+    """StaticSite: the spherical <-> Cartesian quadrupole conversions are inverse to each other (the Cartesian tensor is symmetric and traceless), and Rotate turns position, dipole and
+    quadrupole tensor with the same rotation: r' = ref + R (r - ref), d' = R d, theta' = R theta R^T"""
+    rvc.reset()
+    rel = 'xtp/src/libxtp/staticsite.cc'
+    fns = rvc.functions(rvc.ast(rel, 'StaticSite::'))
+    for need in ('CalculateCartesianMultipole', 'CalculateSphericalMultipole', 'Rotate'):
+        if need not in fns:
+            raise core.Undecided('front end: StaticSite::%s not found' % need)
+    mfs = [{'name': 'StaticSite::' + k, 'file': rel, 'ast_nodes': rvc.node_count(fns[k][0])} for k in ('CalculateCartesianMultipole', 'CalculateSphericalMultipole', 'Rotate')]
+    obs = []
+    Q = Mx.sym('Q', 9)
+    def cart(this):
+        ex = Exec({}, {}, fns, this)
+        return ex.call_fn(fns['CalculateCartesianMultipole'][0], [], this)
+    def sph(theta):
+        ex = Exec({}, {}, fns, None)
+        return ex.call_fn(fns['CalculateSphericalMultipole'][0], [theta], None)
+    this = {'Q_': Q.copy(), 'rank_': 2}
+    th = cart(this)
+    for i in range(3):
+        for j in range(i):
+            o = rvc.identity('C15.rotate/cartesian.symmetric%d%d' % (i, j), 'StaticSite::CalculateCartesianMultipole', 'the Cartesian quadrupole tensor is symmetric', th.g(i, j).v, th.g(j, i).v, seed); o['functions'] = mfs; obs.append(o)
+    o = rvc.identity('C15.rotate/cartesian.traceless', 'StaticSite::CalculateCartesianMultipole', 'the Cartesian quadrupole tensor is traceless', th.g(0, 0).v + th.g(1, 1).v + th.g(2, 2).v, 0, seed); o['functions'] = mfs; obs.append(o)
+    back = sph(th)
+    names = ['Q20', 'Q21c', 'Q21s', 'Q22c', 'Q22s']
+    for k in range(5):
+        o = rvc.identity('C15.rotate/roundtrip.%s' % names[k], 'StaticSite::CalculateSphericalMultipole', 'spherical(Cartesian(Q)) == Q for component %s: the two conversions are inverse' % names[k], back.g(k, 0).v, Q.g(4 + k, 0).v, seed)
+        o['functions'] = mfs; obs.append(o)
+    # Rotate with an arbitrary matrix R (the identities are linear in R: no orthogonality needed)
+    R = Mx.sym('R', 3, 3)
+    pos, ref = Mx.sym('pos', 3), Mx.sym('ref', 3)
+    this = {'Q_': Q.copy(), 'rank_': 2, 'pos_': pos.copy()}
+    ex = Exec({'R': R, 'refPos': ref}, {'exec_functions': ('CalculateSphericalMultipole', 'CalculateCartesianMultipole')}, fns, this)
+    try:
+        ex.stmt(rvc.body_of(fns['Rotate'][0]))
+    except Ret:
+        pass
+    expp = ref + R * (pos - ref)
+    for c in range(3):
+        o = rvc.identity('C15.rotate/position.%s' % 'xyz'[c], 'StaticSite::Rotate', "position: r' = ref + R (r - ref)", this['pos_'].g(c, 0).v, expp.g(c, 0).v, seed); o['functions'] = mfs; obs.append(o)
+    d = Mx.vec([Q.g(1 + c, 0).v for c in range(3)])
+    expd = R * d
+    for c in range(3):
+        o = rvc.identity('C15.rotate/dipole.%d' % c, 'StaticSite::Rotate', "dipole components: d' = R d (in the site's component order)", this['Q_'].g(1 + c, 0).v, expd.g(c, 0).v, seed); o['functions'] = mfs; obs.append(o)
+    th0 = cart({'Q_': Q.copy(), 'rank_': 2})
+    th1 = cart({'Q_': this['Q_'].copy(), 'rank_': 2})
+    expt = R * th0 * R.transpose()
+    # only for traceless results the spherical form can hold the tensor: R theta R^T is traceless for orthogonal R; compare the five independent combinations the spherical form stores
+    exps = sph(expt)
+    gots = sph(th1)
+    for k in range(5):
+        o = rvc.identity('C15.rotate/quadrupole.%s' % names[k], 'StaticSite::Rotate', "quadrupole: the stored components are those of R theta R^T (component %s)" % names[k], gots.g(k, 0).v, exps.g(k, 0).v, seed)
+        o['functions'] = mfs; obs.append(o)
+    return obs
+
+
 def job_polar(seed):
     """induced-dipole terms: CalcPolar_stat_Energy_site = mu_ind . grad(phi_static); ApplyInducedField_site adds T^T mu_ind(site1) to site 2;
     CalcPolarEnergy_site(polar, polar): E_indu_indu = mu1^T T mu2, E_indu_stat = both induced-static terms"""
@@ -272,7 +329,7 @@ def collect(obs):
 
 
 def run(tier, seed, only=None):
-    jobs = [(job_sym, (a, b, seed)) for a in range(3) for b in range(3)] + [(job_field, (a, b, seed)) for a in range(3) for b in (1, 2)] + [(job_thole, (seed,)), (job_polar, (seed,))] + [(job_deriv, (rb, seed)) for rb in range(3)]
+    jobs = [(job_sym, (a, b, seed)) for a in range(3) for b in range(3)] + [(job_field, (a, b, seed)) for a in range(3) for b in (1, 2)] + [(job_thole, (seed,)), (job_polar, (seed,)), (job_rotate, (seed,))] + [(job_deriv, (rb, seed)) for rb in range(3)]
     if only:
         jobs = [j for j in jobs if re.search(only, j[0].__name__ + str(j[1]))]
     obs = core.pmap(jobs)
